@@ -19,7 +19,10 @@ def handler(job):
     elif g["weight"] == "pers":
         kw.update(weight="persistence", weight_params={"n": g["wn"]})
     else:
-        kw.update(weight="linear_ramp", weight_params=dict(zip(("low", "high", "start", "end"), g["ramp"])))
+        rp = list(g["ramp"])
+        if g.get("ramp_int"):      # the levels (and whole-number break points) typed as Python ints, as in {"low": 0, "high": 1, "start": 0, "end": 1}
+            rp = [int(x) if float(x).is_integer() else x for x in rp]
+        kw.update(weight="linear_ramp", weight_params=dict(zip(("low", "high", "start", "end"), rp)))
     via = g.get("via")
     if via:
         # history: the imager is built for ANOTHER window and the target ranges are assigned afterwards (translate: same pixel counts,
